@@ -7,6 +7,7 @@ From Coq Require Import List Arith ZArith NArith Bool Lia.
 From Coq Require Import Znumtheory.
 From Coq Require Import FMapPositive.
 From SV Require Import C12.Model C12.Proofs C12.Maglev C12.MaglevFast C12.Counters.
+From SV Require Import C12.HModel C12.HProofs C12.HLists.
 Import ListNotations.
 Open Scope N_scope.
 
@@ -321,3 +322,169 @@ Proof.
   cbn [disciplined_h]. repeat split; intros h H; vm_compute in H;
     try discriminate; inversion H; subst; vm_compute; reflexivity.
 Qed.
+
+
+(* ------------------------------------------------------------------ *)
+(** * The health checker ([lib/src/health_check.rs], model C12/HModel.v)
+
+    Histories ([hop]) interleave every operation on the backends above with
+    the checker's own steps: a scripted backend changes behaviour, a cluster
+    gets / loses its health-check configuration, the event loop runs at the
+    current instant ([HPump]: [poll] — new rounds, deadlines — and the answers
+    that arrive, to quiescence).  The clock is the model clock, moved by
+    [OAdvance]. *)
+
+(** 8. A probe always ends.  Whatever the history and whatever the backend
+    does with the probe — answers, closes, refuses, or says nothing at all —
+    once the event loop has run, no probe still in flight is past its deadline
+    ([now - started >= timeout]) and none has an answer waiting: every probe
+    gets its verdict (success, failure or timeout) by the first poll at or
+    after its deadline.  The deadline needs no readiness event. *)
+Theorem probe_always_terminates :
+  forall (ops : list hop) (q : probe),
+    let sh := hrun (ops ++ [HPump]) in
+    In q (hc_inflight (snd sh)) ->
+    timed_out (s_now (fst sh)) q = false /\ verdict q = None.
+Proof. exact after_pump_only_pending. Qed.
+
+(** the step itself, for any state of checker and backends: a probe past its
+    deadline is not in flight after [poll], and is among those that get a
+    failure recorded *)
+Theorem overdue_probe_fails_at_next_poll :
+  forall (h : hc) (s : state) (p : probe),
+    In p (hc_inflight h) -> timed_out (s_now s) p = true ->
+    ~ In p (hc_inflight (fst (hc_poll h s))) /\
+    In p (filter (timed_out (s_now s)) (hc_inflight (initiate_cluster (initiate_cluster h s 0) s 1))).
+Proof. exact poll_overdue_gets_failure. Qed.
+
+(** 9. Thresholds.  A healthy backend with a clean failure streak stays healthy
+    through any number of consecutive failures below the threshold and is
+    unhealthy after exactly [thr]; symmetrically for recovery; a success
+    clears the failure streak and vice versa.  A verdict reaches the backend
+    found under the probe's address in the cluster's list, with the thresholds
+    the probe was started with. *)
+Theorem unhealthy_after_threshold :
+  forall (b : backend) (thr : N),
+    b_healthy b = true -> b_fails b = 0 -> 1 <= thr ->
+    (forall n, N.of_nat n < thr -> b_healthy (failures n b thr) = true) /\
+    b_healthy (failures (N.to_nat thr) b thr) = false /\
+    b_succ (fst (record_failure b thr)) = 0.
+Proof.
+  intros b thr H F L. split; [|split].
+  - intros n Hn. apply (failures_below b thr n H F Hn).
+  - apply failures_at; assumption.
+  - apply failure_resets_successes.
+Qed.
+
+Theorem healthy_after_threshold :
+  forall (b : backend) (thr : N),
+    b_healthy b = false -> b_succ b = 0 -> 1 <= thr ->
+    (forall n, N.of_nat n < thr -> b_healthy (successes n b thr) = false) /\
+    b_healthy (successes (N.to_nat thr) b thr) = true /\
+    b_fails (fst (record_success b thr)) = 0.
+Proof.
+  intros b thr H F L. split; [|split].
+  - intros n Hn. apply (successes_below b thr n H F Hn).
+  - apply successes_at; assumption.
+  - apply success_resets_failures.
+Qed.
+
+Theorem verdict_applies_threshold_rule :
+  forall (s : state) (c : nat) (a : N) (v : bool) (cf : hcfg) (hd : nat),
+    find_backend s c a = Some hd -> (hd < length (s_heap s))%nat ->
+    hget (s_heap (record_result s c a v cf)) hd =
+    fst (if v then record_success (hget (s_heap s) hd) (h_hthr cf)
+         else record_failure (hget (s_heap s) hd) (h_uthr cf)).
+Proof. exact record_result_applies. Qed.
+
+(** 10. Whatever the history, no backend — a (cluster, backend id, address)
+    entry of a cluster's list — has two probes in flight, and the lists never
+    hold two entries with the same (backend id, address). *)
+Theorem no_two_probes_in_flight_per_backend :
+  forall (ops : list hop),
+    let sh := hrun ops in
+    NoDup (map probe_key (hc_inflight (snd sh))) /\
+    forall c, NoDup (map (bkey (fst sh)) (c_list (cget (fst sh) c))).
+Proof.
+  intros ops sh. destruct (hrun_ok ops) as [K N]. split; [exact N|]. intros c. apply (proj1 (K c)).
+Qed.
+
+(** 11. A backend that is gone is never marked: after the removal of the
+    backends at an address, a verdict for a probe towards that address changes
+    nothing, whatever the verdict; a verdict never touches a backend object
+    that is not in the cluster's list; and removing the cluster's configuration
+    drops its probes. *)
+Theorem removed_backend_never_marked :
+  forall (ops : list hop) (c : nat) (a : N) (v : bool) (cf : hcfg),
+    let s := fst (hrun (ops ++ [HOp (ORemove c a)])) in
+    find_backend s c a = None /\ record_result s c a v cf = s.
+Proof.
+  intros ops c a v cf. unfold hrun. rewrite fold_left_app. cbn [fold_left].
+  destruct (fold_left hstep ops (init, hc_init)) as [s0 h0]. cbn [hstep fst apply_op].
+  split; [apply removed_not_found|]. apply record_result_gone, removed_not_found.
+Qed.
+
+Theorem verdict_touches_listed_backends_only :
+  forall (s : state) (c : nat) (a : N) (v : bool) (cf : hcfg) (hd : nat),
+    (hd < length (s_heap s))%nat -> ~ In hd (c_list (cget s c)) ->
+    hget (s_heap (record_result s c a v cf)) hd = hget (s_heap s) hd.
+Proof. exact record_result_not_listed. Qed.
+
+Theorem removed_cluster_has_no_probes :
+  forall (ops : list hop) (c : nat) (p : probe),
+    In p (hc_inflight (snd (hrun (ops ++ [HRemove c])))) -> p_c p <> c.
+Proof.
+  intros ops c p. unfold hrun. rewrite fold_left_app. cbn [fold_left].
+  destruct (fold_left hstep ops (init, hc_init)) as [s0 h0]. cbn [hstep].
+  pose proof (remove_drops_probes h0 s0 c p) as R. destruct (hc_remove h0 s0 c) as [h' s']. exact R.
+Qed.
+
+(** non-vacuity: one backend that hangs after accept and one that answers 200,
+    timeout 2, thresholds 2 *)
+Definition hdemo : list hop :=
+  [ HOp (OAdd 0 0 10 None None false); HOp (OAdd 0 1 11 None None false);
+    HServer 10 3; HServer 11 1;
+    HConfig 0 (mkHcfg 5 2 2 2 0); HPump ].
+
+Example probe_always_terminates_nonvacuous :
+  (* the silent backend's probe is in flight, the 503 has been recorded *)
+  map probe_key (hc_inflight (snd (hrun hdemo))) = [(0%nat, 0, 10)] /\
+  b_fails (hget (s_heap (fst (hrun hdemo))) 1) = 1 /\
+  (* one second later it is still there, at the deadline it is gone with a failure *)
+  map probe_key (hc_inflight (snd (hrun (hdemo ++ [HOp (OAdvance 1); HPump])))) = [(0%nat, 0, 10)] /\
+  hc_inflight (snd (hrun (hdemo ++ [HOp (OAdvance 2); HPump]))) = [] /\
+  b_fails (hget (s_heap (fst (hrun (hdemo ++ [HOp (OAdvance 2); HPump])))) 0) = 1.
+Proof. vm_compute. repeat split. Qed.
+
+Example thresholds_nonvacuous :
+  (* second round (interval 5 + jitter): the second failure in a row marks both unhealthy *)
+  let sh := hrun (hdemo ++ [HOp (OAdvance 2); HPump; HOp (OAdvance 4); HPump; HOp (OAdvance 2); HPump]) in
+  b_healthy (hget (s_heap (fst sh)) 0) = false /\ b_healthy (hget (s_heap (fst sh)) 1) = false /\
+  (* the 503 backend starts answering 200: healthy again after two rounds, not after one *)
+  let more := [HServer 11 0; HOp (OAdvance 6); HPump] in
+  let sh1 := hrun (hdemo ++ [HOp (OAdvance 2); HPump; HOp (OAdvance 4); HPump; HOp (OAdvance 2); HPump] ++ more) in
+  let sh2 := hrun (hdemo ++ [HOp (OAdvance 2); HPump; HOp (OAdvance 4); HPump; HOp (OAdvance 2); HPump] ++ more
+                         ++ [HOp (OAdvance 6); HPump]) in
+  b_healthy (hget (s_heap (fst sh1)) 1) = false /\ b_healthy (hget (s_heap (fst sh2)) 1) = true.
+Proof. vm_compute. repeat split. Qed.
+
+Example no_two_probes_nonvacuous :
+  (* a new round starts while the silent backend's probe is still in flight (timeout 9 > interval 1):
+     only the other backend is probed again *)
+  let ops := [ HOp (OAdd 0 0 10 None None false); HOp (OAdd 0 1 11 None None false);
+               HServer 10 3; HServer 11 0; HConfig 0 (mkHcfg 1 9 2 2 0); HPump; HOp (OAdvance 2) ] in
+  map probe_key (hc_inflight (snd (hrun (ops ++ [HPump])))) = [(0%nat, 0, 10)] /\
+  map p_start (hc_inflight (snd (hrun (ops ++ [HPump])))) = [0] /\
+  hc_last (snd (hrun (ops ++ [HPump]))) = [Some 2; None].
+Proof. vm_compute. repeat split. Qed.
+
+Example removed_backend_never_marked_nonvacuous :
+  (* the probe outlives its backend; at the deadline nothing is marked, and the re-added backend is clean *)
+  let ops := hdemo ++ [HOp (ORemove 0 10); HOp (OAdvance 2); HPump] in
+  hc_inflight (snd (hrun ops)) = [] /\
+  b_fails (hget (s_heap (fst (hrun ops))) 0) = 0 /\
+  c_list (cget (fst (hrun ops)) 0) = [1%nat] /\
+  let ops2 := hdemo ++ [HOp (ORemove 0 10); HOp (OAdd 0 0 10 None None false); HOp (OAdvance 1); HPump] in
+  c_list (cget (fst (hrun ops2)) 0) = [1%nat; 2%nat] /\
+  b_fails (hget (s_heap (fst (hrun ops2))) 2) = 0.
+Proof. vm_compute. repeat split. Qed.
